@@ -810,11 +810,29 @@ def check_legacy_tables(ctx):
         except Exception as ex:
             ctx.violate('legacy-paths', {'module': new, 'legacy': old},
                         'target of LEGACY_MODULE_PATHS is not importable (%s): classes saved under %s.* are not restored' % (ex, old),
-                        finding_key='C10.legacy-module-' + new)
+                        finding_key='C10.legacy-utilities-module' if new == 'golem.core.utilities' else None)
     for old, new in cls:
         m, c = new.split('/')
         if import_object(m, c) is None:
             ctx.violate('legacy-paths', {'class': new, 'legacy': old}, 'target of LEGACY_CLASS_PATHS does not exist')
+    # what the model calls the current classes / modules exists in the tree under test
+    txt = ctx.coq_print(REQ, '(CURRENT_MODULES, List.map (fun p => (fst p ++ "|" ++ snd p)%string) CURRENT_OBJECTS)')
+    names = re.findall(r'"([^"]*)"', txt.split('     : ')[0])
+    if len(names) < 10:
+        raise CoqEvalError('cannot read the current modules / objects of the model: %s' % txt[-400:])
+    for nm in names:
+        ok = import_object(*nm.split('|', 1)) is not None if '|' in nm else _importable(nm)
+        ctx.count('legacy-paths', key='current ' + nm, nontrivial=False, kind='model-current')
+        if not ok:
+            ctx.disagree('legacy-paths', {'name': nm}, 'the model lists it as a current module / class but it does not exist in the tree')
+
+
+def _importable(module):
+    try:
+        importlib.import_module(module)
+        return True
+    except Exception:
+        return False
 
 
 # ----------------------------------------------------------------------------------------
